@@ -310,9 +310,82 @@ def MakeOrderChain(rng):
   return prog, ['W', 'V', 'N', 'F', 'P'], ['fam_make_order_chain']
 
 
+def _Distinct(names, rng, lo=0, hi=9):
+  """Unary fact tables with pairwise different contents."""
+  pool = list(range(lo, hi + 1))
+  rng.shuffle(pool)
+  out, at = [], 0
+  for n in names:
+    k = rng.randint(1, 2)
+    out.append(Facts(n, [(v,) for v in sorted(pool[at:at + k])]))
+    at += k
+  return out
+
+
+def SwapBindings(rng):
+  """One application whose bindings overlap: F(A: B, B: A) and F(A: B, B: C).
+  The substitution is simultaneous."""
+  x, y = Var('x'), Var('y')
+  A, B, C = _Distinct(['A', 'B', 'C'], rng)
+  F = Pred('F', [Rule([('col0', x, ''), ('col1', y, '')],
+                      [Atom('A', [('col0', x)]), Atom('B', [('col0', y)])])])
+  G = Pred('G', [Rule([('col0', x, ''), ('logica_value', y, 'Sum')],
+                      [Atom('F', [('col0', x), ('col1', y)])], True)])
+  prog = Prog([A, B, C, F, G])
+  prog['makes'] = [{'name': 'Swapped', 'functor': 'F',
+                    'args': [{'k': 'A', 'v': 'B'}, {'k': 'B', 'v': 'A'}]},
+                   {'name': 'Shifted', 'functor': 'F',
+                    'args': [{'k': 'A', 'v': 'B'}, {'k': 'B', 'v': 'C'}]},
+                   {'name': 'GShift', 'functor': 'G',
+                    'args': [{'k': 'B', 'v': 'C'}, {'k': 'A', 'v': 'B'}]}]
+  return prog, ['F', 'G', 'Swapped', 'Shifted', 'GShift'], ['fam_swap_bindings']
+
+
+def CloneLimitedTwice(rng):
+  """An ordered + limited intermediate predicate cloned by one application
+  and cloned again by an application to the result: every clone keeps the
+  order and the limit."""
+  x, y = Var('x'), Var('y')
+  A, B, C, D = _Distinct(['A', 'B', 'C', 'D'], rng)
+  Top = Pred('Top', [Rule([('col0', x, '')],
+                          [Or([[Atom('A', [('col0', x)])], [Atom('C', [('col0', x)])]])])],
+             order=[('col0', rng.random() < 0.5)], limit=1)
+  F = Pred('F', [Rule([('col0', x, '')], [Atom('Top', [('col0', x)])])])
+  G = Pred('G', [Rule([('col0', x, ''), ('col1', y, '')],
+                      [Atom('N', [('col0', x)]), Atom('Top', [('col0', y)])])])
+  prog = Prog([A, B, C, D, Top, F, G])
+  prog['makes'] = [{'name': 'N', 'functor': 'F', 'args': [{'k': 'A', 'v': 'B'}]},
+                   {'name': 'P', 'functor': 'N', 'args': [{'k': 'C', 'v': 'D'}]},
+                   {'name': 'Q', 'functor': 'G', 'args': [{'k': 'C', 'v': 'D'}]}]
+  return prog, ['Top', 'F', 'N', 'P', 'G', 'Q'], ['fam_clone_limited_twice']
+
+
+def ArgInsideList(rng):
+  """The functor argument is reached through a predicate that mentions it only
+  inside a list literal (and also along an ordinary path)."""
+  x, l = Var('x'), Var('l')
+  A, B = _Distinct(['A', 'B'], rng, 1, 9)
+  MaxA = Pred('MaxA', [Rule([('logica_value', x, 'Max')], [Atom('A', [('col0', x)])], True)])
+  Lst = Pred('Lst', [Rule([('col0', l, '')],
+                          [Unify(l, ListE([PCall('MaxA', []), Lit(N_(0))]))])])
+  F = Pred('F', [Rule([('col0', x, ''), ('col1', Lit(S('inner')), '')],
+                      [Atom('Lst', [('col0', l)]), Inc(x, l)]),
+                 Rule([('col0', x, ''), ('col1', Lit(S('end')), '')],
+                      [Atom('A', [('col0', x)])])])
+  H = Pred('H', [Rule([('col0', x, '')],
+                      [Atom('Lst', [('col0', l)]), Inc(x, l), Cmp(Op('>', x, Lit(N_(0))))])])
+  prog = Prog([A, B, MaxA, Lst, F, H])
+  prog['makes'] = [{'name': 'N', 'functor': 'F', 'args': [{'k': 'A', 'v': 'B'}]},
+                   {'name': 'M', 'functor': 'H', 'args': [{'k': 'A', 'v': 'B'}]}]
+  return prog, ['F', 'H', 'N', 'M'], ['fam_arg_inside_list']
+
+
 C04_FAMILIES = [('made_with_own_rules', MadeWithOwnRules),
                 ('made_with_limit', MadeWithLimit),
-                ('make_order_chain', MakeOrderChain)]
+                ('make_order_chain', MakeOrderChain),
+                ('swap_bindings', SwapBindings),
+                ('clone_limited_twice', CloneLimitedTwice),
+                ('arg_inside_list', ArgInsideList)]
 
 
 # ---- C01 / C11: else-if chains, repeated functional calls --------------------------
